@@ -103,17 +103,18 @@ def label(var, units):
     return f'{var} ({units[PARAM_OF_VAR[var]]})'
 
 
-def check_snapshot(acc, which, m, variables, t, t_unit, unit_over):
+def check_snapshot(acc, which, m, variables, t, t_unit, unit_over, tag=None):
     units = dict(DEFAULTS)
     units.update(unit_over)
-    case = {'kind': 'snap', 'model': which, 'variables': variables, 't': t, 't_unit': t_unit, 'units': unit_over}
+    case = {'kind': 'snap' if tag is None else 'snap-history', 'model': which, 'variables': variables, 't': t, 't_unit': t_unit, 'units': unit_over, 'tag': tag}
+    sfx = '' if tag is None else '/' + tag
     tq = Time(si.convert(t, 'Time', 'sec', t_unit), t_unit)
     acc.transitions += 1
     try:
         df = m.pt.snapshot(target_time=tq, variables=None if variables is None else list(variables),
                            print_data=False, **units)
     except Exception as ex:
-        acc.violation(f'C18/snapshot/exception/{type(ex).__name__}', 'snapshot inside the simulated interval succeeds', case,
+        acc.violation(f'C18/snapshot/exception/{type(ex).__name__}{sfx}', 'snapshot inside the simulated interval succeeds', case,
                       {'exc': repr(ex)[:200]})
         return
     req = valid_vars(m) if variables is None else list(variables)
@@ -151,7 +152,7 @@ def check_snapshot(acc, which, m, variables, t, t_unit, unit_over):
                               {'element': e.name, 'var': v, 'expected': exp})
                 continue
             if not si.close(cell, exp, 1e-9, 1e-300):
-                acc.violation(f'C18/snapshot/value/{v}', 'cell = interpolation of the neighbouring samples in the requested unit', case,
+                acc.violation(f'C18/snapshot/value/{v}{sfx}', 'cell = interpolation of the neighbouring samples in the requested unit', case,
                               {'element': e.name, 'var': v, 'cell': cell, 'expected': exp, 'unit': u})
     acc.nstates += 1
     acc.cases += 1
@@ -268,6 +269,22 @@ def run_shard(shard, tier):
                 check_snapshot(acc, which, m, None, t, tu, {})
                 check_snapshot(acc, which, m, ['angular speed', 'load torque', 'pwm'], t, tu, {})
         acc.sample({'model': which, 'mode': 'target times', 'times_s': target_times(m)[:12], 'time_units': ['sec', 'ms', 'min', 'hour']})
+        # history: snapshot, continue the simulation, snapshot / export again (old and new instants)
+        m.run([0.125, 'sec'], [0.5, 'sec'], duty=[1, 0.6, 0.8, 1, 0.3, None, 0.9, 1, 1, 0.5, -0.4, 1, 1])
+        tmp = tempfile.mkdtemp(prefix='gmc_c18_')
+        try:
+            for t in target_times(m)[::3]:
+                check_snapshot(acc, which, m, None, t, 'sec', {}, tag='after-continuation')
+                check_snapshot(acc, which, m, ['torque', 'pwm'], t, 'ms', {'torque_unit': 'mNm'}, tag='after-continuation')
+            check_export(acc, which, m, 'sec', {}, tmp)
+            m.pt.reset()
+            m.apply_init()
+            m.run([0.25, 'sec'], [1.0, 'sec'], duty=[0.5, 1, 1, 1, 1])
+            for t in target_times(m):
+                check_snapshot(acc, which, m, None, t, 'sec', {}, tag='after-reset-and-rerun')
+            check_export(acc, which, m, 'ms', {'angular_speed_unit': 'rpm'}, tmp)
+        finally:
+            shutil.rmtree(tmp, ignore_errors=True)
     else:
         p, P = shard['part']
         devs = unit_deviations(1 if tier == 'quick' else 2)
